@@ -210,6 +210,8 @@ def pure_int(t, _memo={}):
         if x.sort().kind() == z3.Z3_REAL_SORT:
             ok = False
             break
+        if z3.is_app(x) and x.decl().kind() == z3.Z3_OP_UNINTERPRETED and x.sort().kind() in (z3.Z3_INT_SORT, z3.Z3_BOOL_SORT):
+            continue      # an integer-valued application (e.g. trunc(halo/dx)) is an atom of the index arithmetic
         for j in range(x.num_args()):
             stack.append(x.arg(j))
     _memo[k] = (t, ok)      # keep the term alive: AST ids are reused after collection
@@ -243,6 +245,14 @@ class Case:
         self.atom_names[self.natoms] = desc
         return self.natoms
 
+    def _chk(self, sv):
+        """check() with accounting: an 'unknown' answer (timeout / resource limit) taints the case, so a
+        failed identity is then reported as undecided, never as refuted (verdicts must not depend on load)"""
+        r = sv.check()
+        if r == z3.unknown:
+            self.stats["unknown_queries"] = self.stats.get("unknown_queries", 0) + 1
+        return r
+
     def entails(self, c):
         k = c.get_id()
         if k in self.cond_cache and self.cond_cache[k][0].eq(c):
@@ -251,14 +261,14 @@ class Case:
         sv = self.si if pure_int(c) else self.s
         sv.push()
         sv.add(z3.Not(c))
-        r = sv.check()
+        r = self._chk(sv)
         sv.pop()
         if r == z3.unsat:
             self.cond_cache[k] = (c, True)
             return True
         sv.push()
         sv.add(c)
-        r2 = sv.check()
+        r2 = self._chk(sv)
         sv.pop()
         v = False if r2 == z3.unsat else None
         self.cond_cache[k] = (c, v)
@@ -280,7 +290,7 @@ class Case:
             self.stats["queries"] += 1
             self.si.push()
             self.si.add(t != u)
-            r = self.si.check()
+            r = self._chk(self.si)
             self.si.pop()
             if r == z3.unsat:
                 self.int_cache[k] = (t, uid)
@@ -289,7 +299,7 @@ class Case:
             self.stats["queries"] += 1
             self.si.push()
             self.si.add(t != -u)
-            r = self.si.check()
+            r = self._chk(self.si)
             self.si.pop()
             if r == z3.unsat:
                 self.int_cache[k] = (t, ("neg", uid))
@@ -305,7 +315,7 @@ class Case:
         if z3.is_int_value(t):
             return t.as_long()
         self.stats["queries"] += 1
-        if self.si.check() != z3.sat:
+        if self._chk(self.si) != z3.sat:
             return None
         try:
             v = self.si.model().eval(t, model_completion=True)
@@ -315,7 +325,7 @@ class Case:
             return None
         self.si.push()
         self.si.add(t != v)
-        r = self.si.check()
+        r = self._chk(self.si)
         self.si.pop()
         return v.as_long() if r == z3.unsat else None
 
@@ -1018,7 +1028,11 @@ def prove(pc, hyps, goal, timeout_s=60, max_cases=4000):
                 "time_s": round(time.time() - t0, 3)}
     res = {"backend": "valueview(case-split + z3 LIA congruence + exact polynomial identity) z3 " + z3.get_version_string(),
            "stats": stats, "time_s": round(time.time() - t0, 3)}
-    if failures:
+    if failures and stats.get("unknown_queries"):
+        res["result"] = "unknown"
+        res["reason"] = "valueview: identity not established and %d solver queries were inconclusive (timeout/resource limit)" % stats["unknown_queries"]
+        res["value_failure"] = failures[0]
+    elif failures:
         res["result"] = "sat"
         res["model"] = failures[0].get("model") or {}
         res["value_failure"] = failures[0]
